@@ -528,6 +528,11 @@ class _Walker(FlowWalker):
         self.ev(node.test, env)
         return self.ev(node.body, env) | self.ev(node.orelse, env)
 
+    def ev_NamedExpr(self, node, env):
+        v = self.ev(node.value, env)
+        self.assign(node.target, v, env, node)
+        return v
+
     def ev_JoinedStr(self, node, env):
         return EMPTY
 
